@@ -4,8 +4,10 @@ import GqlModel.Vars.Strconv
 /-
   ast/value.go `(*Value).Value(vars)` and ast/argmap.go `arg2map`, crash-explicit.
 
-  * Literal conversion can fail (`strconv.ParseInt/ParseFloat/ParseBool` error): `Value.Value`
-    returns the error, `arg2map` turns it into `panic(err)`.
+  * Literal conversion can fail on a SYNTAX error of `strconv.ParseInt/ParseFloat/ParseBool` only
+    (no lexer-produced leaf has one; range errors no longer fail since the repair of R15: the
+    float64 of the text is handed on): `Value.Value` returns the error, `arg2map` turns it into
+    `panic(err)`.
   * `Value.VariableDefinition` (a link stored on the node by validation) is resolved BY NAME in
     the list `vdefs` that the caller supplies: the harness sends, for every variable name that
     occurs in the arguments, the definition the Go node is actually linked to.
@@ -56,12 +58,12 @@ mutual
         match parseInt raw with
         | .ok n => .ok (.int .int64 n)
         | .syntax => .err ⟨"ParseInt", raw, .syntax⟩
-        | .range _ => .err ⟨"ParseInt", raw, .range⟩
+        | .range _ => .ok (.float false raw)     -- beyond int64: handed on as the float64 of the text (repair of R15)
       | .float =>
         match parseFloat raw with
         | .ok => .ok (.float false raw)
         | .syntax => .err ⟨"ParseFloat", raw, .syntax⟩
-        | .range _ => .err ⟨"ParseFloat", raw, .range⟩
+        | .range _ => .ok (.float false raw)     -- beyond float64: ±Inf, the float64 of the text (repair of R15)
       | .string | .block | .enum => .ok (.str raw)
       | .boolean =>
         match parseBool raw with
